@@ -69,8 +69,8 @@ theorem flat_at (v : Ver) (T : OpTable) (fv : List PStr) (raws : List RawI) (st 
 
 theorem szs_eq_zipmap (is : List Instr) (as : List Int) : szs is as = (is.zip as).map (fun p => sizeOfI p.1.nov p.2) := rfl
 
-/-- **The assembled bytes are the original bytes.** -/
-theorem flat_code (v : Ver) (T : OpTable) (fv : List PStr) (code : List Nat) (raws : List RawI) (st st' : DecSt) (ois : List (Nat × Instr))
+/-- **The width loop ends with the original operands**, each in its original width. -/
+theorem flat_args (v : Ver) (T : OpTable) (fv : List PStr) (code : List Nat) (raws : List RawI) (st st' : DecSt) (ois : List (Nat × Instr))
     (blocks : List (List Instr)) (xs res : List Int) (fuel : Nat)
     (hraws : parseBytes code = .ok raws) (hdec : decodeInstrs v T fv st raws = .ok (st', ois)) (hbl : buildBlocks ois = .ok blocks)
     (hcode : ∀ x ∈ code, x < 256) (hcomp : Complete code 0) (hpre : ∀ r ∈ raws, r.nargs ≤ 4)
@@ -82,7 +82,8 @@ theorem flat_code (v : Ver) (T : OpTable) (fv : List PStr) (code : List Nat) (ra
     (hxval : ∀ (j : Nat) (r : RawI) (p : Nat × Instr) (x : Int), raws[j]? = some r → ois[j]? = some p → xs[j]? = some x →
       isJump p.2.arg = false → x = r.arg)
     (hrel : relax v blocks.flatten (blockStarts blocks 0) fuel xs = .ok res) :
-    (emit blocks.flatten res 0).1 = code := by
+    res = raws.map (·.arg) ∧ blocks.flatten.length = raws.length ∧
+    ∀ (j : Nat) (i : Instr) (r : RawI), blocks.flatten[j]? = some i → raws[j]? = some r → sizeOfI i.nov r.arg = r.nargs ∧ i.op = r.op := by
   have hflat := (CDV.Props.C13.C13_partition ois blocks hbl).2
   have hoffs : ois.map (·.1) = raws.map (·.first) := decodeInstrs_offsets v T fv raws st st' ois hdec
   have hoislen : ois.length = raws.length := (decodeInstrs_ok v T fv raws st st' ois hdec).2.1
@@ -263,10 +264,28 @@ theorem flat_code (v : Ver) (T : OpTable) (fv : List PStr) (code : List Nat) (ra
         have h3 := instrsize_pos r.arg
         omega
   have hreso := relax_reproduces v blocks.flatten (blockStarts blocks 0) (raws.map (·.arg)) xs res fuel hfix hle hfree hrel
+  exact ⟨hreso, hflen, fun j i r hi hr => ⟨hsize j i r hi hr, (hat j r i hr hi).1.op⟩⟩
+
+/-- **The assembled bytes are the original bytes.** -/
+theorem flat_code (v : Ver) (T : OpTable) (fv : List PStr) (code : List Nat) (raws : List RawI) (st st' : DecSt) (ois : List (Nat × Instr))
+    (blocks : List (List Instr)) (xs res : List Int) (fuel : Nat)
+    (hraws : parseBytes code = .ok raws) (hdec : decodeInstrs v T fv st raws = .ok (st', ois)) (hbl : buildBlocks ois = .ok blocks)
+    (hcode : ∀ x ∈ code, x < 256) (hcomp : Complete code 0) (hpre : ∀ r ∈ raws, r.nargs ≤ 4)
+    (hmin : ∀ r ∈ raws, T.get r.op ≠ .jabs → T.get r.op ≠ .jrel → r.nargs = instrsize r.arg)
+    (hw : ∀ r ∈ raws, instrsize r.arg ≤ r.nargs)
+    (hjs : ∀ r ∈ raws, (T.get r.op = .jabs → (decMult v * r.arg).toNat ∈ raws.map (·.first)) ∧
+      (T.get r.op = .jrel → ((r.next : Int) + decMult v * r.arg).toNat ∈ raws.map (·.first)))
+    (hxlen : xs.length = raws.length) (hxjump : JumpsOne blocks.flatten xs)
+    (hxval : ∀ (j : Nat) (r : RawI) (p : Nat × Instr) (x : Int), raws[j]? = some r → ois[j]? = some p → xs[j]? = some x →
+      isJump p.2.arg = false → x = r.arg)
+    (hrel : relax v blocks.flatten (blockStarts blocks 0) fuel xs = .ok res) :
+    (emit blocks.flatten res 0).1 = code := by
+  obtain ⟨hreso, hflen, hsz⟩ := flat_args v T fv code raws st st' ois blocks xs res fuel hraws hdec hbl hcode hcomp hpre hmin hw hjs hxlen
+    hxjump hxval hrel
   rw [hreso, emit_code_eq]
   rw [zipmap_eq (fun i a => emitOne i.op a (sizeOfI i.nov a)) (fun r => emitOne r.op r.arg r.nargs) blocks.flatten raws hflen ?_]
   · exact (emit_parseBytes code raws hcode hcomp hraws hpre).symm
   · intro j i r hi hr
-    rw [hsize j i r hi hr, (hat j r i hr hi).1.op]
+    rw [(hsz j i r hi hr).1, (hsz j i r hi hr).2]
 
 end CDV
